@@ -150,6 +150,8 @@ func tombstoneMap(rng *rand.Rand, n int) *ordered.MapSA {
 	if rng.Intn(2) == 0 {
 		m.Set("nested", tombstoneMapInner(rng))
 	}
+	// sequences holding ordered maps (what plugin configs look like before ToMapRecursive)
+	m.Set("list", []any{tombstoneMapInner(rng), "x", []any{tombstoneMapInner(rng), 7}})
 	return m
 }
 
@@ -234,7 +236,11 @@ func (s *sharedObjects) observerOps() []c19Op {
 			c19Op{"Get", name, func() string { v, ok := m.Get("k3"); return digest(v, ok, m.Contains("k1"), m.Len(), m.IsZero()) }},
 			c19Op{"Range", name, func() string {
 				var b strings.Builder
-				m.Range(func(k string, v any) error { fmt.Fprintf(&b, "%s=%v;", k, v); return nil })
+				m.Range(func(k string, v any) error {
+					jv, _ := json.Marshal(v) // (never %v: pointers nested in slices print as addresses)
+					fmt.Fprintf(&b, "%s=%s;", k, jv)
+					return nil
+				})
 				return digest(b.String())
 			}},
 			c19Op{"ToMap", name, func() string { return digest(len(m.ToMap()), repDigest(ordered.ToMapRecursive(m))) }},
@@ -301,10 +307,21 @@ func (s *sharedObjects) observerOps() []c19Op {
 }
 
 // ownWork: parse / interpolate / marshal / sign / verify a goroutine's own document; returns result digests per step.
-func ownWork(src, keyAlg, repo string) []c19Op {
+func ownWork(src, keyAlg, repo string, item, nitems int) []c19Op {
 	ctx := context.Background()
 	var pl *pipeline.Pipeline
 	return []c19Op{
+		{"InterpolateNilEnv", "", func() string {
+			// no caller env: each pipeline gets its own fresh one; nothing of pipeline `item` may reach another
+			doc := fmt.Sprintf(`{"env":{"OWN_%d":"v%d"},"steps":[{"command":"echo ${OWN_%d} ${OWN_%d-unset}"}]}`, item, item, item, (item+1)%nitems)
+			p, err := pipeline.Parse(strings.NewReader(doc))
+			if err != nil {
+				return digest("parse", err.Error())
+			}
+			ierr := p.Interpolate(nil, false)
+			b, _ := json.Marshal(p)
+			return digest(ierr == nil, string(b))
+		}},
 		{"Parse", "", func() string {
 			p, err := pipeline.Parse(strings.NewReader(src))
 			pl = p
@@ -379,7 +396,7 @@ func c19Phase(tw *traceWriter, fl flags, concurrent bool, ref map[string]string)
 		for r := 0; r < rounds; r++ {
 			// own objects
 			dp := s.docPairs[(g+r)%len(s.docPairs)]
-			for _, op := range ownWork(dp[0], s.keyAlg, s.repo) {
+			for _, op := range ownWork(dp[0], s.keyAlg, s.repo, (g+r)%len(s.docPairs), len(s.docPairs)) {
 				res, p, msg := runOp(op)
 				key := "own/" + dp[1] + "/" + op.name
 				seq++
@@ -424,8 +441,8 @@ func c19Phase(tw *traceWriter, fl flags, concurrent bool, ref map[string]string)
 			em.emit(obj{"kind": "observe", "g": -1, "seq": 0, "op": op.name, "obj": op.obj, "repbefore": before, "repafter": after,
 				"reppublished": s.pubRep[op.obj], "result": res, "refresult": res, "panic": p, "panicmsg": msg})
 		}
-		for _, dp := range s.docPairs {
-			for _, op := range ownWork(dp[0], s.keyAlg, s.repo) {
+		for di, dp := range s.docPairs {
+			for _, op := range ownWork(dp[0], s.keyAlg, s.repo, di, len(s.docPairs)) {
 				res, _, _ := runOp(op)
 				results["own/"+dp[1]+"/"+op.name] = res
 			}
